@@ -15,7 +15,10 @@ Vocab == [ atoms |-> [ none |-> "" ] ]
 SessionCreds == {"valid", "aged_valid", "expired", "tamper_value", "tamper_ts", "tamper_sig", "other_secret", "csrf_as_session",
                  "ticket_no_entry", "garbage"}
 BearerCreds  == {"bearer_valid", "bearer_otherkey", "bearer_algnone", "bearer_hs256pub", "bearer_wrong_iss", "bearer_wrong_aud",
-                 "bearer_expired", "bearer_unverified", "bearer_multi_aud_azp"}     \* the last: aud = [two other services], azp = this client
+                 "bearer_expired", "bearer_unverified", "bearer_multi_aud_azp",     \* the last: aud = [two other services], azp = this client
+                 \* tokens of the two EXTRA issuers configured next to the provider (x: with a discovery document; x0: keys only, listed first):
+                 \* good ones, and ones signed with the issuer's key for the right audience but naming another issuer
+                 "xbearer_valid", "xbearer0_valid", "xbearer_wrong_iss", "xbearer0_wrong_iss"}
 BasicCreds   == {"basic_valid", "basic_wrongpw", "basic_malformed"}
 ComboCreds   == {"valid_plus_badbearer", "expired_plus_goodbearer"}
 Creds == {"none"} \cup SessionCreds \cup BearerCreds \cup BasicCreds \cup ComboCreds
@@ -44,7 +47,7 @@ CredValid(c, cfg) ==
     CASE c \in {"valid", "aged_valid", "valid_plus_badbearer"}     -> TRUE
       [] c = "expired"                                              -> cfg.expire0        \* without an age limit an old credential is simply valid
       [] c = "expired_plus_goodbearer"                              -> cfg.expire0 \/ cfg.bearer
-      [] c \in {"bearer_valid"}                                     -> cfg.bearer
+      [] c \in {"bearer_valid", "xbearer_valid", "xbearer0_valid"} -> cfg.bearer
       [] c = "basic_valid"                                           -> cfg.htpasswd
       [] OTHER                                                       -> FALSE
 \* the identity behind the credential: the given user, or the htpasswd user (exempt from e-mail rules, group g1)
